@@ -38,7 +38,7 @@ def define():
         if e["name"].startswith("c11_over_") or e["name"].startswith("c11_stackcap") or e["name"].startswith("c11_stackncap"):
             if e["tier"] == "quick" and "C19" not in e["props"]:
                 e["props"].append("C19")
-                e.setdefault("prop_tier", {})["C19"] = "rot2"
+                e.setdefault("prop_tier", {})["C19"] = "quick" if e["name"].startswith("c11_over_") else "rot2"
     # the no-alloc twins
     twins = []
     for e in HT._ENTRIES:
